@@ -94,6 +94,74 @@ theorem subset_rows_cols {m' p' : Type*} [Fintype m'] [DecidableEq m'] [Fintype 
       Fx.submatrix r c - Fy.submatrix r id * Ry⁻¹ * Rx.submatrix id c :=
   Alg.implicit_submatrix Fx Fy Ry Rx r c
 
+/-! ### Units: the result is equivariant under a change of variables -/
+
+/-- **Change of variables.**  With the functions in coordinates `F' = P F`, the design variables
+    `x = Qi x'`, the couplings `y' = S y` (`Si * S = 1`) and any invertible combination `T` of the
+    residuals, the closed form of the transformed partial Jacobians is the transformed closed form
+    (in particular `subset_rows_cols` for selections `P`, `Qi`, and every rescaling). -/
+theorem change_of_variables {m' p' : Type*} [Fintype m'] [DecidableEq m'] [Fintype p']
+    [DecidableEq p'] (Fx : Matrix m p K) (Fy : Matrix m n K) (Ry : Matrix n n K)
+    (Rx : Matrix n p K) (P : Matrix m' m K) (Qi : Matrix p p' K) (S Si T : Matrix n n K)
+    (hS : Si * S = 1) (hT : IsUnit T.det) (hR : IsUnit Ry.det) :
+    (P * Fx * Qi) - (P * Fy * Si) * (T * Ry * Si)⁻¹ * (T * Rx * Qi) =
+      P * (Fx - Fy * Ry⁻¹ * Rx) * Qi :=
+  Alg.implicit_change_of_variables Fx Fy Ry Rx P Qi S Si T hS hT hR
+
+/-- **Rescaling of the variables (units).**  If every function `i` is multiplied by `a i ≠ 0`,
+    every design variable `j` by `b j ≠ 0`, every coupling/state `k` by `c k ≠ 0` and every residual
+    `k` by `r k ≠ 0` — the partial Jacobians become `a i · ∂F_i/∂x_j / b j`, … — the total
+    derivative `(i, j)` is multiplied by `a i / b j`, whatever the magnitudes: a right-hand side of
+    norm `10⁻¹³` is not a zero right-hand side, no absolute threshold is compatible with the property. -/
+theorem scale_equivariant (Fx : Matrix m p K) (Fy : Matrix m n K) (Ry : Matrix n n K)
+    (Rx : Matrix n p K) (a : m → K) (b : p → K) (c r : n → K)
+    (hc : ∀ k, c k ≠ 0) (hr : ∀ k, r k ≠ 0) (hR : IsUnit Ry.det) :
+    (Matrix.of fun i j => a i * Fx i j / b j) -
+        (Matrix.of fun i k => a i * Fy i k / c k) * (Matrix.of fun k l => r k * Ry k l / c l)⁻¹ *
+          (Matrix.of fun k j => r k * Rx k j / b j) =
+      Matrix.of fun i j => a i * (Fx - Fy * Ry⁻¹ * Rx) i j / b j := by
+  have hS : diagonal (fun k => (c k)⁻¹) * diagonal c = 1 := by
+    rw [Matrix.diagonal_mul_diagonal, ← Matrix.diagonal_one]
+    congr 1; funext k; exact inv_mul_cancel₀ (hc k)
+  have hT : IsUnit (diagonal r).det := by
+    rw [Matrix.det_diagonal]
+    exact (Finset.prod_ne_zero_iff.mpr fun k _ => hr k).isUnit
+  have key := change_of_variables Fx Fy Ry Rx (diagonal a) (diagonal fun j => (b j)⁻¹)
+    (diagonal c) (diagonal fun k => (c k)⁻¹) (diagonal r) hS hT hR
+  have e1 : (Matrix.of fun i j => a i * Fx i j / b j) = diagonal a * Fx * diagonal fun j => (b j)⁻¹ := by
+    ext i j; rw [Alg.diagonal_mul_mul_diagonal_apply]; simp [div_eq_mul_inv]
+  have e2 : (Matrix.of fun i k => a i * Fy i k / c k) = diagonal a * Fy * diagonal fun k => (c k)⁻¹ := by
+    ext i j; rw [Alg.diagonal_mul_mul_diagonal_apply]; simp [div_eq_mul_inv]
+  have e3 : (Matrix.of fun k l => r k * Ry k l / c l) = diagonal r * Ry * diagonal fun k => (c k)⁻¹ := by
+    ext i j; rw [Alg.diagonal_mul_mul_diagonal_apply]; simp [div_eq_mul_inv]
+  have e4 : (Matrix.of fun k j => r k * Rx k j / b j) = diagonal r * Rx * diagonal fun j => (b j)⁻¹ := by
+    ext i j; rw [Alg.diagonal_mul_mul_diagonal_apply]; simp [div_eq_mul_inv]
+  rw [e1, e2, e3, e4, key]
+  ext i j; rw [Alg.diagonal_mul_mul_diagonal_apply]; simp [div_eq_mul_inv]
+
+/-- Non-vacuity of `scale_equivariant`: a "compliance" of `2⁻⁴⁰` on the design variable and a
+    "stiffness" of `2⁴⁰` on the function (the situation of the rescaled stream of the harness):
+    all the hypotheses hold and the total derivative is the one of the well-scaled system, `2/7`,
+    although the right-hand side of the direct system is `2⁻⁴⁰`. -/
+example :
+    let Ry : Matrix (Fin 2) (Fin 2) ℚ := !![-1, 1/2; 1/4, -1]
+    let Rx : Matrix (Fin 2) (Fin 1) ℚ := !![1; 0]
+    let Fx : Matrix (Fin 1) (Fin 1) ℚ := !![0]
+    let Fy : Matrix (Fin 1) (Fin 2) ℚ := !![0, 1]
+    IsUnit Ry.det ∧ (∀ k : Fin 2, ((fun _ => (2:ℚ)^(-40 : ℤ)) : Fin 2 → ℚ) k ≠ 0) ∧
+      (Fx - Fy * Ry⁻¹ * Rx) 0 0 = 2/7 := by
+  refine ⟨?_, ?_, ?_⟩
+  · simp [Matrix.det_fin_two]; norm_num
+  · intro k; positivity
+  · have hdet : IsUnit (!![-1, 1/2; 1/4, -1] : Matrix (Fin 2) (Fin 2) ℚ).det := by
+      simp [Matrix.det_fin_two]; norm_num
+    have hX : (!![-1, 1/2; 1/4, -1] : Matrix (Fin 2) (Fin 2) ℚ) *
+        (!![8/7; 2/7] : Matrix (Fin 2) (Fin 1) ℚ) = -(!![1; 0] : Matrix (Fin 2) (Fin 1) ℚ) := by
+      ext i j; fin_cases i <;> fin_cases j <;> simp [Matrix.mul_apply, Fin.sum_univ_two] <;> norm_num
+    rw [← direct_eq_implicit (!![0] : Matrix (Fin 1) (Fin 1) ℚ) (!![0, 1] : Matrix (Fin 1) (Fin 2) ℚ)
+      _ _ _ hdet hX]
+    simp
+
 /-! ### Couplings outside the request can be dropped (minimal couplings) -/
 
 variable {n₁ n₂ : Type*} [Fintype n₁] [DecidableEq n₁] [Fintype n₂] [DecidableEq n₂]
@@ -171,6 +239,21 @@ theorem split_concat_blocks (vs : List String) (M : Mat) (j a b : Nat) (hjv : j 
     entry (((splitJac sz vs M).getD j ("", [])).2) a b = entry M a (offset sz vs j + b) :=
   splitJac_entry sz vs M j a b hjv hb
 
+/-- **Rescaled variables, model level.**  Running the assembly on the partial Jacobians expressed
+    in the rescaled variables `v' = w v · v` (`scaledJac`, driver field `E=`) multiplies entry
+    `(off_i + a, off_j + b)` of every assembled matrix — `∂R/∂y` with its `-I`, `∂R/∂x`, `∂F/∂x`,
+    `∂F/∂y` — by `w f_i / w v_j`: the assembled matrices of the rescaled system are
+    `D_f · M · D_v⁻¹`, the situation of `scale_equivariant`. -/
+theorem assemble_scaled_entry (hj : JacWF jac sz) (w : String → Rat) (hw : ∀ s, w s ≠ 0)
+    (isRes : Bool) (fs vs : List String) (i j a b : Nat) (hi : i < fs.length) (hjv : j < vs.length)
+    (ha : a < sz (fs.getD i "")) (hb : b < sz (vs.getD j "")) :
+    entry (assemble (scaledJac w jac) sz isRes fs vs) (offset sz fs i + a) (offset sz vs j + b) =
+      w (fs.getD i "") / w (vs.getD j "") *
+        entry (assemble jac sz isRes fs vs) (offset sz fs i + a) (offset sz vs j + b) := by
+  rw [assemble_entry (scaledJac w jac) sz (scaledJac_wf jac sz w hj) isRes fs vs i j a b hi hjv ha hb,
+    assemble_entry jac sz hj isRes fs vs i j a b hi hjv ha hb]
+  exact blockOf_scaled jac sz w hj hw isRes _ _ a b ha hb
+
 end model
 
 /-- Every solve executed by the model is certified: a returned vector solves the system. -/
@@ -203,5 +286,21 @@ example : JacWF exJac exSz := by
     | simp at h
 
 example : solveChecked [[-1, 1/2], [1/4, -1]] [-1, 0] = some [8/7, 2/7] := by decide +kernel
+
+/-- Non-vacuity of `assemble_scaled_entry`: the residual matrix of the example system with the
+    coupling `b` in a unit `2⁻⁴⁰` times smaller and the design variable `x` in a unit `2⁴⁰` times
+    larger (`weightOf`, as the driver builds it from the `E=` field). -/
+example : assemble (scaledJac (weightOf [("b", -3), ("x", 2)]) exJac) exSz true ["a", "b"] ["a", "b", "x"] =
+    [[-1, 4, 2, 3/4], [1/8, -7/8, 0, 0], [1/4, 0, -7/8, 0]] := by decide +kernel
+
+example : ∀ s, weightOf [("b", -3), ("x", 2)] s ≠ 0 := by
+  intro s
+  unfold weightOf
+  split
+  · rename_i p hp
+    have := List.mem_of_find?_eq_some hp
+    simp only [List.mem_cons, List.not_mem_nil, or_false] at this
+    rcases this with rfl | rfl <;> decide +kernel
+  · decide +kernel
 
 end GV.C07
